@@ -490,7 +490,14 @@ func (b *Blockchain) EventFilter(
 
 // RevertHead reverts the head block
 func (b *Blockchain) RevertHead() error {
-	return b.stateBackend.RevertHead()
+	if err := b.stateBackend.RevertHead(); err != nil {
+		return err
+	}
+	// Cached bloom windows describe the chain as it was when they were loaded. A window
+	// that was complete (and cached) before a revert reached into it will be rebuilt
+	// with other blocks' events: drop the cache so that queries reload it from storage.
+	b.cachedFilters.Reset()
+	return nil
 }
 
 func (b *Blockchain) GetReverseStateDiff() (core.StateDiff, error) {
